@@ -7,18 +7,33 @@ use std::io::Write;
 use crate::error::Result;
 use super::resp::RespFrame;
 
+/// Write the text of a simple string or error. These are line-oriented: a CR or LF inside
+/// the text (e.g. request content echoed in an error message) would end the line early and
+/// break the framing of everything that follows, so both are written as spaces.
+fn write_line_text<W: Write>(bytes: &[u8], writer: &mut W) -> Result<()> {
+    if bytes.iter().any(|&b| b == b'\r' || b == b'\n') {
+        let cleaned: Vec<u8> = bytes.iter()
+            .map(|&b| if b == b'\r' || b == b'\n' { b' ' } else { b })
+            .collect();
+        writer.write_all(&cleaned)?;
+    } else {
+        writer.write_all(bytes)?;
+    }
+    Ok(())
+}
+
 /// Serialize a RESP frame to a writer
 pub fn serialize_resp_frame<W: Write>(frame: &RespFrame, writer: &mut W) -> Result<()> {
     match frame {
         RespFrame::SimpleString(bytes) => {
             writer.write_all(b"+")?;
-            writer.write_all(bytes)?;
+            write_line_text(bytes, writer)?;
             writer.write_all(b"\r\n")?;
         }
         
         RespFrame::Error(bytes) => {
             writer.write_all(b"-")?;
-            writer.write_all(bytes)?;
+            write_line_text(bytes, writer)?;
             writer.write_all(b"\r\n")?;
         }
         
